@@ -96,7 +96,9 @@ def mk_box(ctx, D, degenerate_ok=True):
     R = rotation(ctx, D)
     c = [ctx.real('c%d' % i) for i in range(D)]
     lim = [[ctx.real('lo%d' % i, None, 0), ctx.real('hi%d' % i, 0, None)] for i in range(D)]
-    box = romc.NDimBoundingBox(symnd(ctx, R), symnd(ctx, c), symnd(ctx, lim))
+    given = symnd(ctx, lim)
+    box = romc.NDimBoundingBox(symnd(ctx, R), symnd(ctx, c), given)
+    box._given_limits = given          # the caller's array (harness bookkeeping)
     return box, R, c, lim
 
 
@@ -115,6 +117,14 @@ def h_box(ctx, D, n2=2):
         box, R, c, lim = mk_box(ctx, D)
         sl = secured(ctx, lim)
         ctx.claim('limits_secured', And(*[And(close(box.limits[i][0], sl[i][0]), close(box.limits[i][1], sl[i][1])) for i in range(D)]))
+        # the caller keeps its limits array and builds a second region from it (as a user looping over problems would)
+        given = box._given_limits
+        ctx.claim('callers_limits_array_is_not_modified',
+                  And(*[And(close(given[i][0], lim[i][0]), close(given[i][1], lim[i][1])) for i in range(D)]))
+        box2 = romc.NDimBoundingBox(symnd(ctx, R), symnd(ctx, c), given)
+        ctx.claim('first_region_unaffected_by_a_second_one_built_from_the_same_array',
+                  And(*[And(close(box.limits[i][0], sl[i][0]), close(box.limits[i][1], sl[i][1])) for i in range(D)]) and
+                  And(*[And(close(box2.limits[i][0], sl[i][0]), close(box2.limits[i][1], sl[i][1])) for i in range(D)]))
         vol = 1
         for lo, hi in sl:
             vol = vol * (hi - lo)
